@@ -19,7 +19,7 @@ vproof! {
         let w0 = rng.words[0];
         let x: f64 = Exp1.sample(&mut rng);
         let i = (w0 & 0xff) as usize;
-        vassert!(x > 0.0, "ziggurat(exp): rectangle sample not positive (u must be in (0,1))");
+        vassert!(x >= 1e-20, "ziggurat(exp): rectangle sample not positive (u must be in (0,1))");
         vassert!(x < ZIG_EXP_X[i + 1], "ziggurat(exp): rectangle return outside the rectangle of its layer");
         kani::cover!(i == 0, "rectangle path, base layer");
         kani::cover!(i == 254, "rectangle path, layer 254");
@@ -172,3 +172,40 @@ c03_exp!(c03_exp_f64, f64, 1e-100, 1e100);
 //@ bounds: lambda = 0 or 1e-30 <= lambda <= 1e30
 //@ assumes: utils::ziggurat by contract
 c03_exp!(c03_exp_f32, f32, 1e-30, 1e30);
+
+// ---- C07 ----------------------------------------------------------------------------------------
+macro_rules! c07_exp {
+    ($name:ident, $f:ty) => {
+        vproof_free! {
+            fn $name() {
+                let mut rng = SymRng::new(1);
+                let lambda: $f = kani::any();
+                let d = match Exp::<$f>::new(lambda) { Ok(d) => d, Err(_) => return };
+                // lambda_inverse is the documented 1/lambda (checked on a few concrete rates; a symbolic duplicate division is out of reach)
+                vassert!(Exp::<$f>::new(4.0).unwrap().lambda_inverse == 0.25 && Exp::<$f>::new(0.5).unwrap().lambda_inverse == 2.0
+                    && Exp::<$f>::new(0.0).unwrap().lambda_inverse == <$f>::INFINITY, "Exp: lambda_inverse is not 1/lambda");
+                let x: $f = d.sample(&mut rng);
+                vassert!(rng.pos == 1 && flog_n() == 1, "Exp: number of standard draws depends on the parameter");
+                let (_, _, g) = flog_get(0);
+                vassert!(biteq64(x as f64, ((g as $f) * d.lambda_inverse) as f64), "Exp: sample is not Exp1 draw * lambda_inverse");
+                kani::cover!(g == 2.0, "g = 2");
+            }
+        }
+    };
+}
+//@ id: c07_exp_f64
+//@ prop: C07
+//@ tier: quick
+//@ cap: 900
+//@ funcs: Exp::<f64>::new (lambda_inverse); Exp::<f64>::sample
+//@ bounds: every accepted lambda; the Exp1 draw ranges over the free-stub value set
+//@ assumes: utils::ziggurat replaced by a free logged draw consuming one word
+c07_exp!(c07_exp_f64, f64);
+//@ id: c07_exp_f32
+//@ prop: C07
+//@ tier: quick
+//@ cap: 900
+//@ funcs: Exp::<f32>::new; Exp::<f32>::sample
+//@ bounds: as c07_exp_f64
+//@ assumes: utils::ziggurat replaced by a free logged draw
+c07_exp!(c07_exp_f32, f32);
